@@ -6,6 +6,8 @@ package c03
 import (
 	"context"
 	"fmt"
+	"math"
+	"sync"
 	"testing"
 	"time"
 
@@ -38,6 +40,9 @@ type Case struct {
 	ViaConfig bool `json:"profile_via_config"`
 	// StartupMs: length of a const startup profile (default 4 ms)
 	StartupMs int `json:"startup_ms,omitempty"`
+	// Shape: set by genSparse (TestSparseProfiles): the profile runs in real time and has tokens that are seconds apart;
+	// every schedule object is wrapped so that "how far ahead was a token when it was handed out" is measured.
+	Shape string `json:"sparse_shape,omitempty"`
 }
 
 var profOpts = sg.Opts{MaxDepth: 2, MaxChildren: 4, MaxLeafTok: 25, MinDur: time.Millisecond, MaxDur: 8 * time.Millisecond}
@@ -105,6 +110,166 @@ func genCase(t *rapid.T) Case {
 	return c
 }
 
+// ---- sparse profiles in real time ----
+//
+// TestAccounting's profiles last milliseconds, so a token is never more than a few ms ahead of the instance that drew
+// it. Real profiles routinely have tokens that are seconds ahead: rates below 1 rps, a line starting from or falling
+// to 0, pauses between sections (const with ops 0, the step-duration of instance_step, a step profile starting at 0).
+// genSparse builds such profiles whose LAST token is due at most sparseBudget after the start (the engine ends a pool
+// at the last token, not at the nominal end of the profile), so that a case costs ~1-3 s of sleeping.
+
+const sparseBudget = 3300 * time.Millisecond
+
+// genGapMs draws the long interval of a sparse profile: mostly above 1 s (up to the budget), one in five below
+// (the same shapes with sub-second waits).
+func genGapMs(t *rapid.T, label string, hi int) int {
+	switch rapid.IntRange(0, 4).Draw(t, label+"Bucket") {
+	case 0:
+		return rapid.IntRange(300, 1000).Draw(t, label)
+	case 1, 2:
+		return rapid.IntRange(1050, min(hi, 1900)).Draw(t, label)
+	}
+	return rapid.IntRange(min(hi, 1900), hi).Draw(t, label)
+}
+
+func msNs(ms int) int64 { return int64(ms) * int64(time.Millisecond) }
+
+// genBurst: a part whose tokens are (almost) simultaneous: once, or a few ms of a high const rate.
+func genBurst(t *rapid.T, label string, lo int) sg.Node {
+	k := rapid.IntRange(lo, 4).Draw(t, label+"Tok")
+	if rapid.IntRange(0, 2).Draw(t, label+"Kind") == 0 && k > 0 {
+		d := msNs(rapid.IntRange(5, 40).Draw(t, label+"Ms"))
+		return sg.Node{Kind: "const", From: (float64(k) + 0.25) / (float64(d) / 1e9), DurNs: d}
+	}
+	return sg.Node{Kind: "once", N: int64(k)}
+}
+
+// lastTokenAfter: offset of the profile's last token from its start (reference chain).
+func lastTokenAfter(n sg.Node) time.Duration {
+	start := time.Unix(1, 0)
+	parts, _, _, err := sg.Chain(sg.Flatten(n), start)
+	if err != nil {
+		return time.Hour
+	}
+	var last time.Duration
+	for _, p := range parts {
+		if k := len(p.Tokens); k > 0 {
+			last = p.Tokens[k-1].Sub(start)
+		}
+	}
+	return last
+}
+
+func genSparseProfile(t *rapid.T) (string, sg.Node) {
+	shape := rapid.SampledFrom([]string{"const_below_1rps", "const_below_1rps", "line_from_zero", "line_to_zero",
+		"pause_between_parts", "pause_between_parts", "instance_step", "step_from_zero"}).Draw(t, "shape")
+	var n sg.Node
+	switch shape {
+	case "const_below_1rps":
+		// ops = 1/gap: tokens at 0, gap, 2*gap, ...; k tokens, duration (k+0.25)*gap (e.g. 0.5 rps for 4.5 s: 0 s, 2 s)
+		gap := genGapMs(t, "gap", 2900)
+		k := rapid.IntRange(2, max(2, 1+int(sparseBudget/time.Millisecond)/gap)).Draw(t, "tok")
+		n = sg.Node{Kind: "const", From: 1000 / float64(gap), DurNs: int64((float64(k) + 0.25) * float64(msNs(gap)))}
+	case "line_from_zero":
+		// rate a*x from 0: token i at gap*sqrt(i)
+		gap := genGapMs(t, "gap", 2900)
+		k := rapid.IntRange(2, 5).Draw(t, "tok")
+		for k > 2 && float64(gap)*math.Sqrt(float64(k-1)) > float64(sparseBudget/time.Millisecond) {
+			k--
+		}
+		d := float64(gap) / 1000 * math.Sqrt(float64(k)+0.25) // seconds
+		a := 2 / (float64(gap) / 1000 * float64(gap) / 1000)
+		n = sg.Node{Kind: "line", From: 0, To: a * d, DurNs: int64(d * 1e9)}
+	case "line_to_zero":
+		// rate falling to 0: with N = from*d/2 = k+0.25 the last two tokens are 0.38*d/sqrt(N) apart
+		gap := genGapMs(t, "gap", 2900)
+		k := rapid.IntRange(2, 4).Draw(t, "tok")
+		mk := func(k int) sg.Node {
+			N := float64(k) + 0.25
+			d := float64(gap) / 1000 * math.Sqrt(N) / (1.5 - math.Sqrt(1.25))
+			return sg.Node{Kind: "line", From: 2 * N / d, To: 0, DurNs: int64(d * 1e9)}
+		}
+		n = mk(k)
+		for k > 2 && lastTokenAfter(n) > sparseBudget {
+			k--
+			n = mk(k)
+		}
+	case "pause_between_parts":
+		// burst, pause, burst [, pause, burst]; the pause is a section without tokens, as in `{type: const, ops: 0, duration: 30s}`
+		pauses := rapid.IntRange(1, 2).Draw(t, "pauses")
+		left := int(sparseBudget / time.Millisecond)
+		n = sg.Node{Kind: "composite", Children: []sg.Node{genBurst(t, "head", 0)}}
+		for i := 0; i < pauses; i++ {
+			hi := left - 1100*(pauses-1-i)
+			p := genGapMs(t, "pause", min(2900, hi))
+			left -= p
+			var pause sg.Node
+			switch rapid.IntRange(0, 2).Draw(t, "pauseKind") {
+			case 0:
+				pause = sg.Node{Kind: "line", From: 0, To: 0, DurNs: msNs(p)}
+			default:
+				pause = sg.Node{Kind: "const", From: 0, DurNs: msNs(p)}
+			}
+			n.Children = append(n.Children, pause, genBurst(t, "part", 1))
+		}
+	case "instance_step":
+		// used as a load profile: `from` tokens at once, then `step` more after every step-duration
+		from := rapid.IntRange(0, 3).Draw(t, "from")
+		step := rapid.IntRange(1, 3).Draw(t, "step")
+		cnt := rapid.IntRange(1, 2).Draw(t, "cnt")
+		gap := genGapMs(t, "gap", min(2900, int(sparseBudget/time.Millisecond)/cnt))
+		n = sg.Node{Kind: "istep", From: float64(from), To: float64(from + cnt*step), Step: int64(step), DurNs: msNs(gap)}
+	case "step_from_zero":
+		// level 0 for one duration (no tokens), then `to` rps for one duration
+		to := rapid.IntRange(1, 3).Draw(t, "to")
+		gap := genGapMs(t, "gap", 1600)
+		n = sg.Node{Kind: "step", From: 0, To: float64(to), Step: int64(to), DurNs: msNs(gap)}
+	}
+	// optionally a burst before and/or after the sparse part, while the whole stays within the budget
+	if n.Kind != "composite" {
+		switch rapid.IntRange(0, 3).Draw(t, "wrap") {
+		case 1:
+			n = sg.Node{Kind: "composite", Children: []sg.Node{genBurst(t, "before", 1), n}}
+		case 2:
+			w := sg.Node{Kind: "composite", Children: []sg.Node{n, genBurst(t, "after", 1)}}
+			if lastTokenAfter(w) <= sparseBudget {
+				n = w
+			}
+		}
+	}
+	return shape, n
+}
+
+func genSparse(t *rapid.T) Case {
+	c := Case{Repeat: 1}
+	c.Shape, c.Profile = genSparseProfile(t)
+	c.Instances = rapid.IntRange(1, 5).Draw(t, "instances")
+	c.Startup = rapid.SampledFrom([]string{"once", "once", "const", "istep"}).Draw(t, "startup")
+	c.PerInstance = rapid.Bool().Draw(t, "perInstance")
+	_, _, T, _ := sg.Chain(sg.Flatten(c.Profile), time.Unix(1, 0))
+	full := T
+	if c.PerInstance {
+		full = T * c.Instances
+	}
+	switch rapid.IntRange(0, 4).Draw(t, "ammoKind") {
+	case 0, 1:
+		c.Ammo = -1
+	case 2:
+		c.Ammo = full
+	case 3:
+		c.Ammo = full + rapid.IntRange(1, c.Instances).Draw(t, "extra")
+	default:
+		c.Ammo = rapid.IntRange(min(2, full), max(1, full)).Draw(t, "ammoLess")
+	}
+	c.Discard = rapid.Bool().Draw(t, "discard")
+	c.ShotUs = rapid.SliceOfN(rapid.SampledFrom([]int{0, 50, 1000, 20000}), 1, 3).Draw(t, "shotUs")
+	c.AcquireUs = rapid.SampledFrom([]int{0, 0, 200}).Draw(t, "acquireUs")
+	c.Queue = rapid.SampledFrom([]int{0, 1, 64}).Draw(t, "queue")
+	c.AfterLast = rapid.SampledFrom([]string{"return", "wait_ctx"}).Draw(t, "afterLast")
+	c.ViaConfig = sg.ConfigOK(c.Profile) && rapid.Bool().Draw(t, "viaConfig")
+	return c
+}
+
 func startup(c Case) core.Schedule {
 	n := int64(c.Instances)
 	switch c.Startup {
@@ -155,6 +320,8 @@ func once(c Case, o *vf.Obs, classify bool) error {
 		}
 		factory = holder.F
 	}
+	var wrapMu sync.Mutex
+	var wrapped []*fake.Sched
 	newSched := func() (core.Schedule, error) {
 		var s core.Schedule
 		if factory != nil {
@@ -166,6 +333,13 @@ func once(c Case, o *vf.Obs, classify bool) error {
 			s = sg.Build(c.Profile)
 		}
 		s.Start(time.Now().Add(-time.Duration(c.PastMs) * time.Millisecond))
+		if c.Shape != "" {
+			w := fake.WrapSched(s)
+			wrapMu.Lock()
+			wrapped = append(wrapped, w)
+			wrapMu.Unlock()
+			s = w
+		}
 		return s, nil
 	}
 	conf := engine.Config{Pools: []engine.InstancePoolConfig{{
@@ -252,7 +426,37 @@ func once(c Case, o *vf.Obs, classify bool) error {
 		o.ClassIf(c.ViaConfig && c.PerInstance && c.Profile.Kind == "composite" && started >= 2, "per_instance_composite_via_config")
 		o.ClassIf(unfired > 0, "unfired_ammo")
 		o.ClassIf(started < c.Instances, "start_cut_short")
-		if c.Instances >= 2 && want >= c.Instances {
+		if c.Shape != "" {
+			// measured, not assumed: the longest interval between the instant Next returned a token and that token's time
+			var ahead time.Duration
+			farTokens := 0
+			wrapMu.Lock()
+			for _, w := range wrapped {
+				for _, n := range w.Log() {
+					if !n.OK {
+						continue
+					}
+					d := n.Tx.Sub(n.After)
+					if d > ahead {
+						ahead = d
+					}
+					if d > time.Second {
+						farTokens++
+					}
+				}
+			}
+			wrapMu.Unlock()
+			o.Class("shape_" + c.Shape)
+			o.ClassIf(ahead > time.Second, "token_handed_out_more_than_1s_ahead")
+			o.ClassIf(ahead > 2*time.Second, "token_handed_out_more_than_2s_ahead")
+			o.ClassIf(ahead <= time.Second, "no_token_more_than_1s_ahead")
+			o.ClassIf(ahead > time.Second && c.Ammo >= 0 && c.Ammo <= tokens, "far_token_and_bounded_ammo")
+			o.ClassIf(farTokens >= 2 && started >= 2, "several_instances_waited_more_than_1s")
+			o.Note("longest_wait_ms", ahead.Milliseconds())
+			if ahead > time.Second && want >= 2 {
+				o.NonTrivial()
+			}
+		} else if c.Instances >= 2 && want >= c.Instances {
 			o.NonTrivial()
 		}
 		o.Note("fired", fired)
@@ -266,4 +470,13 @@ func TestAccounting(t *testing.T) {
 	pand.Init()
 	r := vf.Start(t, "C03")
 	vf.Check(r, genCase, check)
+}
+
+// TestSparseProfiles: the same conservation laws for profiles that run in real time with tokens seconds apart
+// (sleep-bound: all cases of a process run concurrently).
+func TestSparseProfiles(t *testing.T) {
+	pand.Init()
+	r := vf.Start(t, "C03")
+	n := r.Pick(24, 96)
+	vf.Batch(r, n, 32, genSparse, check)
 }
